@@ -487,7 +487,7 @@ func enumerate(n int, fn func(Case)) (ood int) {
 					// additionally: exactly one of the non-last revisions partially applied (what a file that was
 					// run out of order by a non-linear execution and failed partway leaves behind)
 					base := revs
-					for inner := -1; inner < len(base)-1; inner++ {
+					for inner := -1; inner == -1 || inner < len(base)-1; inner++ { // inner == -1: the table as is (also the empty one)
 						revs := append([]rev(nil), base...)
 						if inner >= 0 {
 							revs[inner].Partial = true
